@@ -1069,7 +1069,40 @@ func run(r *hk.Run) {
 		kp := id >= 1 && id <= 7
 		x.descsU("unknown-id", []byte{9, 0x20, 0x41, byte(id), 1, 7}, !kp)
 		x.descsU("unknown-id", []byte{9, 0x20, 0x42, 1, 1, 9, byte(id), 3, 1, 2, 3, 10, 0x40, 0x00}, !kp)
-		x.descsU("unknown-id", []byte{9, 0x20, 0x41, byte(id), 0}, !kp && true)
+		x.descsU("unknown-id", []byte{9, 0x20, 0x41, byte(id), 0}, !kp)
+		if !kp || id%2 == 1 { // in the second description / the second rule
+			x.descsU("unknown-id", []byte{9, 0x20, 0x41, 1, 1, 9, 10, 0x60, 0x41, byte(id), 2, 7, 8, 11, 0x40, 0}, !kp)
+		}
+		if !known[id] || id%2 == 1 {
+			x.rulesU("unknown-id", []byte{1, 0, 3, 0x20, 7, 9, 2, 0, 9, 0x21, 0x31, 4, byte(id), 1, 2, 3, 5, 9}, !known[id])
+		}
+	}
+	// every implemented component type followed by 0 .. Length+1 octets of value inside the filter
+	// (the length test of each UnmarshalBinary), alone and after another component
+	for id := 0; id < 256; id++ {
+		if !known[id] {
+			continue
+		}
+		for k := 0; k <= 9; k++ {
+			val := []byte{0xa1, 0xb2, 0xc3, 0xd4, 0xe5, 0xf6, 0x07, 0x18, 0x29}[:k]
+			b := append([]byte{1, 0, 0, 0x21, 0x31, byte(1 + k), byte(id)}, val...)
+			b = append(b, 5, 9)
+			b[2] = byte(len(b) - 3)
+			x.rulesU("short-value", b, false)
+			b = append([]byte{1, 0, 0, 0x21, 0x31, byte(2 + k), 0x01, byte(id)}, val...)
+			b = append(b, 5, 9)
+			b[2] = byte(len(b) - 3)
+			x.rulesU("short-value", b, false)
+		}
+	}
+	// every parameter kind with 0 .. 4 octets of contents
+	for id := 1; id <= 7; id++ {
+		for k := 0; k <= 4; k++ {
+			val := []byte{0x11, 0x22, 0x33, 0x44}[:k]
+			b := append([]byte{9, 0x20, 0x41, byte(id), byte(k)}, val...)
+			x.descsU("short-value", b, false)
+			x.descsU("short-value", append(b, 10, 0x40, 0), false)
+		}
 	}
 	// every value of the header octets
 	for h := 0; h < 256; h++ {
